@@ -190,7 +190,35 @@ def check_public(out: Outcome, s: np.ndarray, i: np.ndarray, tag: str):
         if sorted(rows.get(a, [])) != want or len(rows.get(a, [])) != len(want):
             out.fail('property', 'rows-iff-change', {'via': 'public', 's': [s[:, a].tolist()], 'i': [i[:, a].tolist()]},
                      expected=want, observed=rows.get(a, []))
+    # previous / next site views of the object the public pipeline built (its own array types)
+    prev, nxt = np.array(tr.states_prev()), np.array(tr.states_next())
+    for a in range(s.shape[1]):
+        wp, wn = hist.spec_ffill(s[:, a]), hist.spec_bfill(s[:, a])
+        if prev[:, a].tolist() != wp or nxt[:, a].tolist() != wn:
+            bad = next(t for t in range(s.shape[0]) if prev[t, a] != wp[t] or nxt[t, a] != wn[t])
+            out.fail('property', 'states-prev' if prev[:, a].tolist() != wp else 'states-next',
+                     {'via': 'public', 'frames': int(s.shape[0]), 's': [s[:, a].tolist()] if s.shape[0] <= 400 else 'omitted (long run)'},
+                     expected=[wp[bad], wn[bad]], observed=[int(prev[bad, a]), int(nxt[bad, a])], note=f'atom {a}, frame {bad}')
+            break
     out.count('public-systems')
+
+
+def long_history(rng, T):
+    """one atom hopping between two sites with long stays and excursions to no site, T frames"""
+    s = np.empty(T, dtype=int)
+    t, cur = 0, 0
+    while t < T:
+        stay = int(rng.integers(200, 3000))
+        s[t:t + stay] = cur
+        t += stay
+        gap = int(rng.integers(1, 400))
+        s[t:t + gap] = -1
+        t += gap
+        cur = int(rng.integers(0, 2))
+    return s[:, None], s[:, None].copy()
+
+
+BIG_IDS = np.array([0, 999, 1000, 1001, 1999, 2001, 32767, 32768, 65536])
 
 
 def run(tier: str, seed: int, scale: int) -> Outcome:
@@ -229,6 +257,17 @@ def run(tier: str, seed: int, scale: int) -> Outcome:
         check_batch(out, s, i, 'random')
         if k % 5 == 0:
             check_fill(out, s, 'random-fill')
+    # large site indices (site tables with thousands of sites): index arithmetic must not collide
+    for k in range((40 if tier == 'quick' else 400) * scale):
+        T = int(rng.integers(2, 40))
+        s_, i_ = hist.random_histories(rng, T, int(rng.integers(1, 4)), len(BIG_IDS), inner=True)
+        ids = BIG_IDS[rng.permutation(len(BIG_IDS))]
+        big = lambda x: np.where(x >= 0, ids[np.clip(x, 0, None)], -1)  # noqa: E731
+        check_batch(out, big(s_), big(i_), 'large-site-indices')
+    # one run longer than 2^15 frames through the public pipeline (index / dtype limits of the fill views)
+    for k in range(1 * scale if tier == 'quick' else 3 * scale):
+        s_, i_ = long_history(rng, int(rng.integers(33500, 36000)))
+        check_public(out, s_, i_, 'public-long')
     # public API path
     n_pub = (25 if tier == 'quick' else 300) * scale
     for k in range(n_pub):
